@@ -327,3 +327,53 @@ def _region_overrun(failure):
 @region('C08-aspath-zero-length-segment')
 def _region_zero_segment(failure):
     return failure.get('input', {}).get('second_update') == 'AS_PATH with a segment of length zero' and 'announced / stored' in failure.get('what', '')
+
+
+# ---------------------------------------------------------------------------------------------------------------------
+# RFC 7606 section 3.d: an UPDATE which announces routes and lacks a well-known mandatory attribute is treat-as-withdraw --
+# ORIGIN, AS_PATH, NEXT_HOP (for the NLRI field), and LOCAL_PREF on an iBGP session (RFC 4271 5.1.5: "SHALL be included in
+# all UPDATE messages that a given BGP speaker sends to other internal peers")
+def missing_case(kind, absent):
+    parts = {'ORIGIN': W.origin(0), 'AS_PATH': W.as_path([] if kind.startswith('ibgp') else [65001], kind != 'ibgp2'), 'NEXT_HOP': W.next_hop('192.0.2.1'), 'LOCAL_PREF': bytes([0x40, 5, 4, 0, 0, 0, 100])}
+    blob = b''.join(v for k, v in parts.items() if k not in absent and (k != 'LOCAL_PREF' or kind.startswith('ibgp')))
+    body = W.update_body(b'', blob, W.prefix4('10.77.0.0', 16, None))
+    inp = {'kind': kind, 'absent': sorted(absent), 'body': body.hex()}
+    obs = P.observe(kind, body)
+    if obs['status'] == 'exception':
+        return {'what': f'decoder raised a non-NOTIFICATION error: {obs["exc"]}', 'input': inp}
+    if obs['status'] == 'notify':
+        return None if absent else {'what': f'a complete UPDATE was refused with NOTIFICATION {obs["code"]}', 'input': inp}
+    announced = bool(obs.get('update', {}).get('announce')) or bool(obs.get('rib'))
+    if absent and announced:
+        return {'what': f'routes announced / stored although the UPDATE lacks {" and ".join(sorted(absent))}', 'input': inp, 'observed': str(obs.get('update'))[:300]}
+    if not absent and not announced:
+        return {'what': 'a complete UPDATE was not announced', 'input': inp}
+    return None
+
+
+@region('C08-ibgp-missing-local-pref')
+def ibgp_local_pref_region(failure):
+    """recorded defect: on an iBGP session an UPDATE without LOCAL_PREF is announced and stored; only that attribute, only iBGP"""
+    i = failure.get('input', {})
+    return failure.get('what', '').startswith('routes announced / stored although the UPDATE lacks') and i.get('absent') == ['LOCAL_PREF'] and str(i.get('kind', '')).startswith('ibgp')
+
+
+@bounded('C08', 'missing-mandatory-attributes')
+def missing_mandatory(tier, seed):
+    import itertools
+
+    fails, evals = [], 0
+    for kind in ('ebgp4', 'ibgp2'):
+        names = ['ORIGIN', 'AS_PATH', 'NEXT_HOP'] + (['LOCAL_PREF'] if kind.startswith('ibgp') else [])
+        for n in range(0, len(names) + 1):
+            for absent in itertools.combinations(names, n):
+                evals += 1
+                f = missing_case(kind, set(absent))
+                if f:
+                    fails.append(f)
+    return {'evaluations': evals, 'distinct_nontrivial': evals, 'exhaustive': True, 'bound': 'every subset of the well-known mandatory attributes left out of an UPDATE announcing 10.77.0.0/16, on an eBGP (ORIGIN, AS_PATH, NEXT_HOP) and an iBGP session (plus LOCAL_PREF): announced iff nothing is missing', 'rule': 'one case = (session kind, absent attributes)', 'samples': [{'kind': 'ibgp2', 'absent': ['LOCAL_PREF']}], 'failures': fails}
+
+
+@replayer('C08', 'missing-mandatory-attributes')
+def _replay_missing(f):
+    return missing_case(f['input']['kind'], set(f['input']['absent'])) is None
